@@ -12,7 +12,7 @@ RULE = ('(a) random well-typed trees (generator of C05, depth<=4, memory reads a
         'evaluated in random machine states: each identifier independently constant / symbolic expression / absent, each memory cell the '
         'tree reads independently bound (at exactly its evaluated address expression) to a constant or symbolic expression or left unbound; '
         '(b) all-constant states for every operator of deal_op and every operator the x86 lifter emits, arity 1..5, widths 8/16/32/64, '
-        'boundary operands (deterministic grid); (c) n-ary + * ^ & | with 3..5 operands mixing constants and symbols. Values are compared '
+        'boundary operands (deterministic grid); (c) n-ary + * ^ & | with 3..5 operands mixing constants and symbols; (e) ((x o2 M) o1 S) + y for all 11x11 pairs of binary operators with M, S bound to boundary constants by the state and x, y symbolic; (d) compositions: 9 slot layouts x every combination of slot kinds (constant, identifier bound to a constant, symbolic identifier, conditional with symbolic / constant condition and constant arms). Values are compared '
         'on 6 valuations. A case = (canonical tree, canonical state); non-trivial = the state binds at least one identifier or cell the '
         'expression reads.')
 ASSUMPTIONS = ['irsem is the meaning of the IR', 'symbolic bases p/q/const are kept >= 1 MiB apart in every valuation (no aliasing outside the statement)',
@@ -269,6 +269,9 @@ COMPOSE_LAYOUTS = [((0, 8), (8, 32)), ((0, 16), (16, 32)), ((0, 1), (1, 32)), ((
 SLOT_KINDS = ('int', 'cond-sym', 'id-const', 'id-sym', 'cond-const')
 
 
+PAIR_OPS = ('+', '-', '*', '^', '&', '|', '<<', '>>', 'a>>', '<<<', '>>>')
+
+
 def compose_cases():
     """Deterministic (layout, kind per slot) grid: every combination of slot kinds for every layout."""
     import itertools
@@ -329,6 +332,7 @@ def shards(tier, seed):
     out += [('rand', i) for i in range(n)]
     out += [('nary', i) for i in range(8 if tier == 'quick' else 64)]
     out += [('compose', i) for i in range(0, len(compose_cases()), 64)]
+    out += [('pairs', w, o1) for w in (8, 32) for o1 in PAIR_OPS]
     return out
 
 
@@ -358,6 +362,20 @@ def run_shard(shard, tier, seed):
         sh.sample({'operator': op, 'widths': widths, 'state': [hex(v) for v in combos[0]], 'result': _safe_str(e, dict((i_, exprgen.Int(v, i_.size)) for i_, v in zip(ids, combos[0])))}, 1)
         return sh
     rng = common.rng_for(seed, 'C06', shard[0], shard[1])
+    if shard[0] == 'pairs':
+        # (x o2 M) o1 S under an enclosing node, M and S bound to boundary constants by the state, x (and y) symbolic: the
+        # partially evaluated operand is handed to the simplifier with constants that only the state provides
+        w, o1 = shard[1], shard[2]
+        K = sorted(set(v & irsem.mask(w) for v in (0, 1, w - 1, w, irsem.mask(w), 1 << (w - 1), 0x10, 4)))
+        x, y = ex.ExprId('x%d' % w, w), ex.ExprId('y%d' % w, w)
+        M, S_ = ex.ExprId('m%d' % w, w), ex.ExprId('s%d' % w, w)
+        for o2 in PAIR_OPS:
+            for m in K:
+                for s_ in K:
+                    state = {M: exprgen.Int(m, w), S_: exprgen.Int(s_, w)}
+                    e = ex.ExprOp('+', ex.ExprOp(o1, ex.ExprOp(o2, x, M), S_), y)
+                    check_case(sh, e, state, ('p', w, o1, o2, m, s_), 'pairs', want_const=False)
+        return sh
     if shard[0] == 'compose':
         for n, (lay, ks) in enumerate(compose_cases()[shard[1]:shard[1] + 64]):
             for rep in range(3 if tier == 'quick' else 12):
